@@ -138,6 +138,33 @@ func doDump(P *Program, what string) {
 				fmt.Printf("return@%s %s = %s\n", P.Pos(r.Pos()), desc(v), t.String())
 			}
 		}
+	case what == "inplace":
+		// debug: in-place big.Int mutations whose receiver is not created in the same function
+		for _, fn := range P.AllFuncs {
+			if fn.Blocks == nil {
+				continue
+			}
+			allInstrs(fn, func(i ssa.Instruction) {
+				c, ok := i.(*ssa.Call)
+				if !ok {
+					return
+				}
+				m := bigMethod(c)
+				if m == "" || !bigMutators[m] || len(c.Call.Args) == 0 {
+					return
+				}
+				site := siteOf(c.Call.Args[0])
+				switch x := site.(type) {
+				case *ssa.Alloc:
+					return
+				case *ssa.Call:
+					if isCallTo(x, "big.NewInt") || bigMethod(x) != "" {
+						return
+					}
+				}
+				fmt.Printf("%-60s %s.%s   [%T] @%s\n", FuncKey(fn), desc(c.Call.Args[0]), m, site, P.Pos(c.Pos()))
+			})
+		}
 	case what == "rejtable":
 		// prints the reasons of all verification trees in the format of rejections_table.txt (for review, not used at run time)
 		var names []string
